@@ -57,7 +57,7 @@ def run_cli(repo, outfile=None, lst=False, implicit_bin=False, emitted=None, com
         c = Rec(ClassVal("CompilerStub"))
 
         def compile_and_link(I2, aa, kk):
-            events.append(("compile", len(aa[1])))
+            events.append(("compile", len(aa[1]), tuple(repr(x) for x in aa[1])))
             if compile_error == "reported":
                 I2.call(I2.module_get("reports", "error"), ["some-error", (sym.var("s", "obj"), sym.var("e", "obj"), "text")], {})
                 return BASE, CODE
@@ -110,7 +110,7 @@ def run_cli(repo, outfile=None, lst=False, implicit_bin=False, emitted=None, com
         return NotImplemented
     I.call_hook = hook
     I.summaries["devices::open_device"] = lambda I_, fn, a, k: open_model(I_, a, k)
-    I.summaries["parser::parse"] = lambda I_, fn, a, k: events.append(("parse", a[0])) or sym.var("ast", "obj")
+    I.summaries["parser::parse"] = lambda I_, fn, a, k: events.append(("parse", a[0])) or sym.var(f"ast:{a[0]}", "obj")
     I.summaries["compiler::Compiler.__init__"] = None
     for hname in ("GraphicalHandler", "BareHandler"):
         I.summaries[f"reports::{hname}.__call__"] = lambda I_, fn, a, k, hname=hname: events.append(("diagnostic", hname, a[2])) or None
@@ -195,6 +195,8 @@ def matrix():
                 for emitted in (None, ("bin", "a/b.bin"), ("raw", "a/c"), ("bk_wav", "t.wav")):
                     for ce in (None, "warning", "reported", "critical", "internal"):
                         yield dict(outfile=outfile, lst=lst, implicit_bin=implicit_bin, emitted=emitted, compile_error=ce)
+    yield dict(outfile="out.bin", infiles=("/src/a.mac", "/src/b.mac", "/src/c.mac"))
+    yield dict(outfile=None, implicit_bin=True, lst=True, infiles=("/src/first.mac", "/other/second.mac"))
     yield dict(outfile="out.bin", write_error=True)
     yield dict(outfile=None, emitted=("bin", "a/b.bin"), emit_error=True, lst=True)
     yield dict(outfile="o.bin", emit_error=True)
@@ -221,6 +223,14 @@ def rule_cli(ck, aspects=("exit", "writes", "noninterference")):
         code, writes, opened, events = observed(paths[0])
         want_code, want_writes = expected(cfg)
         ck.instance(("cli", label), {"configuration": label, "exit": code, "written": [(k, p) for k, p, _ in writes]} if n % 37 == 1 else None, fn=where)
+        # every input file is parsed and handed to the compiler, in the order given
+        infiles = list(cfg.get("infiles", ("/src/prog.mac",)))
+        compiles = [e for e in events if e[0] == "compile"]
+        want_asts = tuple(repr(sym.var(f"ast:{f}", "obj")) for f in infiles)
+        if len(compiles) != 1 or compiles[0][2] != want_asts:
+            ck.violation(where, f"[{label}] the compiler receives {compiles[0][2] if compiles else None} for the input files {infiles}; expected the parse of each file, in order, in one compilation",
+                         construct="cli hands every parsed file to the compiler")
+            continue
         if "exit" in aspects:
             if bool(code) != bool(want_code):
                 ck.violation(where, f"[{label}] exit status is {code!r}, expected {'non-zero' if want_code else 'zero (no sys.exit)'}: a run fails iff an error was reported",
